@@ -7,8 +7,8 @@ import c13, c05
 
 EXPLANATION = ("R02.1 the matcher LogSpecification::enabled is a first-match decision list over the module filters in vector order (k<=2 abstract "
                "elements): entry without name or with target.starts_with(name) decides `level <= its level_filter`, no match -> false, operand "
-               "origins checked; R02.2 longest name first: level_sort is the stable slice::sort_by with comparator cmp(len(b), len(a)) (default "
-               "entry = length 0), and every value stored into `module_filters` comes from level_sort, another specification, or a vector of "
+               "origins checked; R02.2 longest name first: the one function sorting module filters uses a stable slice sort ordering by descending name length (comparator, Reverse key or reverse(); default "
+               "entry = length 0), and every value stored into `module_filters` comes from that function, another specification, or a vector of "
                "at most one element; R02.3 gate order of FlexiLogger::log (shared with R13.1): default channel iff (not brace or _Default) and "
                "enabled(level, effective target) and (no text filter or it matches the Display of the message), then line filter or primary "
                "writer; R02.4 global max level = max(spec.max_level(), every additional writer's max_log_level()) on build and on every change; "
